@@ -89,6 +89,10 @@ SFinish == st = "top" /\ ndefs >= 1 /\ st' = "done" /\ UNCHANGED <<toks, stack, 
 SNext == AddDef \/ SFinish
 SSpec == SInit /\ [][SNext]_gvars
 
+\* documents that mix executable and type-system definitions (Document : Definition+, any order)
+MNext == GNext \/ AddDef
+MSpec == GInit /\ [][MNext]_gvars
+
 \* type-system documents contain no selections
 NoSelections == Depth(toks) = 0 /\ FieldCount(toks) = 0 /\ InlinedDepth(toks) = 0
 =============================================================================
